@@ -10,6 +10,7 @@ CONSTANTS
   PingReaderCtx = "parent"
   PingErrSend = "blocking"
   PingUnrMax = 2
+  EarlyWatcherFollows = "cctx"
   DeliveryHoldsRLock = FALSE
   KF_HalfCloseOnly = TRUE
 INVARIANTS
